@@ -519,6 +519,7 @@ func (x *vConnRun) will(c *vConnC, w *vConnWill) {
 // request: a LOCK (lockId = tok) or an UNLOCK (own RequestId tok, LockId = target) on open, unblocked connection c
 func (x *vConnRun) request(c *vConnC, kind byte, key, target, timeout, expried int) int {
 	tok := x.newTok(c.idx, key, kind)
+	x.ue0, x.uc0 = int(x.v.counters().UnlockErrorCount), int(x.v.counters().UnLockCount)
 	ct, name, lockId := uint8(protocol.COMMAND_LOCK), "LOCK", tok
 	if kind == 'U' {
 		ct, name, lockId = protocol.COMMAND_UNLOCK, "UNLOCK", target
@@ -576,6 +577,21 @@ func (x *vConnRun) follow(ctx byte, reqTok int, reqConn *vConnC) {
 	}
 	x.settle()
 	sc := x.scan()
+	if ctx == 'q' && x.toks[reqTok].kind == 'U' {
+		// the UNLOCK's own effect on the counters is not a will's (a close may follow inside this very action)
+		reqConn.rd.mu.Lock()
+		for _, f := range reqConn.rd.frames {
+			if !f.used && f.kind == 'L' {
+				if f.result == 0 {
+					x.uc0++
+				} else {
+					x.ue0++
+				}
+				break
+			}
+		}
+		reqConn.rd.mu.Unlock()
+	}
 	var answered []int
 	for tok, st := range x.live {
 		nh, nw := sc.holds[tok] > 0, sc.waits[tok] > 0
